@@ -14,7 +14,7 @@
 From Coq Require Import List NArith Bool.
 From Mila Require Import Lib.Bytes Lib.Machine Model.Pixel Model.Etc1 Model.TexCommon Model.TexFormat
   Model.Ctpk Model.Bch Model.Cgfx Model.Tpl
-  Proofs.TexBase Proofs.TexMagic Proofs.TexCtpk Proofs.TexTpl Proofs.TexBch Proofs.TexCgfx Proofs.TexDecode.
+  Proofs.TexBase Proofs.TexMagic Proofs.TexCtpk Proofs.TexTpl Proofs.TexBch Proofs.TexCgfx Proofs.TexDecode Proofs.TexStatements.
 Import ListNotations.
 Local Open Scope N_scope.
 
@@ -31,8 +31,8 @@ Proof. exact read_bch_correct. Qed.
 Theorem C20_read_cgfx : forall m f texs, conforms_cgfx f texs -> read_cgfx m f = decode_all (decode_tex m) texs.
 Proof. exact read_cgfx_correct. Qed.
 
-(* On the supported textures (the formats of C19 - RGBA8, RGBA5551, RGB565, RGBA4, LA8, L8, A8, ETC1, ETC1A4 -
-   with power-of-two sides >= 8; CI8 images whose indices lie in their RGB5A3 palette) every decoding
+(* On the supported textures (the formats of C19: RGBA8, RGBA5551, RGB565, RGBA4, LA8, L8, A8 with sides that are
+   multiples of 8, ETC1 and ETC1A4 with power-of-two sides >= 8; CI8 images whose indices lie in their RGB5A3 palette) every decoding
    succeeds with the same pixels in both arithmetic modes, so the readers return exactly map decoded texs. *)
 Theorem C20_decode_supported : forall m t, supported3ds t -> decode_tex m t = Ok (decoded t).
 Proof. exact decode_tex_supported. Qed.
@@ -42,6 +42,21 @@ Theorem C20_decode_all_supported : forall m ts, Forall supported3ds ts -> decode
 Proof. exact decode_all_supported. Qed.
 Theorem C20_decode_all_supported_tpl : forall ts, Forall supportedtpl ts -> decode_all decode_tpl_tex ts = Ok (map tpl_decoded ts).
 Proof. exact decode_all_tpl_supported. Qed.
+
+(* hence, in the wording of the property: reading a conforming container of supported textures returns the
+   textures in order, [decoded t] = (name of t, width, height, pixels of t's own payload), in both modes *)
+Theorem C20_read_ctpk_supported : forall m f texs, conforms_ctpk f texs -> Forall supported3ds texs ->
+  read_ctpk m f = Ok (map decoded texs).
+Proof. exact read_ctpk_supported. Qed.
+Theorem C20_read_tpl_supported : forall m f texs, conforms_tpl f texs -> Forall supportedtpl texs ->
+  read_tpl m f = Ok (map tpl_decoded texs).
+Proof. exact read_tpl_supported. Qed.
+Theorem C20_read_bch_supported : forall m f texs, conforms_bch f texs -> Forall supported3ds texs ->
+  read_bch m f = Ok (map decoded texs).
+Proof. exact read_bch_supported. Qed.
+Theorem C20_read_cgfx_supported : forall m f texs, conforms_cgfx f texs -> Forall supported3ds texs ->
+  read_cgfx m f = Ok (map decoded texs).
+Proof. exact read_cgfx_supported. Qed.
 
 (* ---------------------------------------------------------------- wrong magic number (BCH, CGFX, TPL) *)
 Theorem C20_bad_magic_bch : forall m f v, u32_at LE f 0 = Some v -> v <> BCH_MAGIC -> read_bch m f = Err EBadMagic.
@@ -86,9 +101,33 @@ Theorem C20_prefix_tpl : forall m f texs k, conforms_tpl f texs -> k < lenN f ->
   (forall i t off, nth_error texs i = Some t ->
      (tpl_image_at f (N.of_nat i) off /\ cuts k off (t_data t)) \/ (tpl_palette_at f (N.of_nat i) off /\ cuts k off (t_pal t)) ->
      is_err (read_tpl m (firstn (N.to_nat k) f))).
-Proof. intros m f texs k Hc. exact (tpl_prefix m f texs k Hc (tpl_all_no_panic texs)). Qed.
+Proof. exact tpl_prefix_nohyp. Qed.
 Theorem C20_supported_no_panic : forall m ts, Forall supported3ds ts -> Forall (fun t => no_panic (decode_tex m t)) ts.
 Proof. exact supported_no_panic. Qed.
+
+(* the same for containers of supported textures, in the wording of the property: never a Panic, and an Err
+   whenever the cut removes part of a texture payload *)
+Theorem C20_prefix_ctpk_supported : forall m f texs k, conforms_ctpk f texs -> Forall supported3ds texs -> k < lenN f ->
+  (forall p, read_ctpk m (firstn (N.to_nat k) f) <> Panic p) /\
+  (forall i t off, nth_error texs i = Some t -> ctpk_payload_at f (N.of_nat i) off -> cuts k off (t_data t) ->
+     exists e, read_ctpk m (firstn (N.to_nat k) f) = Err e).
+Proof. exact ctpk_prefix_supported. Qed.
+Theorem C20_prefix_bch_supported : forall m f texs k, conforms_bch f texs -> Forall supported3ds texs -> k < lenN f ->
+  (forall p, read_bch m (firstn (N.to_nat k) f) <> Panic p) /\
+  (forall i t off, nth_error texs i = Some t -> bch_payload_at f (N.of_nat i) off -> cuts k off (t_data t) ->
+     exists e, read_bch m (firstn (N.to_nat k) f) = Err e).
+Proof. exact bch_prefix_supported. Qed.
+Theorem C20_prefix_cgfx_supported : forall m f texs k, conforms_cgfx f texs -> Forall supported3ds texs -> k < lenN f ->
+  (forall p, read_cgfx m (firstn (N.to_nat k) f) <> Panic p) /\
+  (forall i t off, nth_error texs i = Some t -> cgfx_payload_at f (N.of_nat i) off -> cuts k off (t_data t) ->
+     exists e, read_cgfx m (firstn (N.to_nat k) f) = Err e).
+Proof. exact cgfx_prefix_supported. Qed.
+Theorem C20_prefix_tpl_all : forall m f texs k, conforms_tpl f texs -> k < lenN f ->
+  (forall p, read_tpl m (firstn (N.to_nat k) f) <> Panic p) /\
+  (forall i t off, nth_error texs i = Some t ->
+     (tpl_image_at f (N.of_nat i) off /\ cuts k off (t_data t)) \/ (tpl_palette_at f (N.of_nat i) off /\ cuts k off (t_pal t)) ->
+     exists e, read_tpl m (firstn (N.to_nat k) f) = Err e).
+Proof. exact tpl_prefix_all. Qed.
 
 (* ---------------------------------------------------------------- the checkers used on generated files *)
 Theorem C20_checker_ctpk : forall f texs, conforms_ctpkb f texs = true -> conforms_ctpk f texs.
@@ -172,8 +211,8 @@ Proof. split; [apply conforms_tplb_sound; vm_compute; reflexivity|]. vm_compute;
 Example C20_examples_supported : supported3ds ex_ctpk_tex /\ supported3ds ex_bch_tex /\ supportedtpl ex_tpl_tex.
 Proof.
   split; [|split].
-  - split; [left; reflexivity|]. split; [exists 0, 0; split; reflexivity|]. split; reflexivity.
-  - split; [left; reflexivity|]. split; [exists 0, 0; split; reflexivity|]. split; reflexivity.
+  - split; [left; repeat split; reflexivity|]. split; reflexivity.
+  - split; [left; repeat split; reflexivity|]. split; reflexivity.
   - split; [reflexivity|]. split; [reflexivity|]. repeat constructor.
 Qed.
 
